@@ -99,6 +99,23 @@ def record(obj):
     return [REC[i] for i in range(n)], text, gaps, idxs
 
 
+def record_keep(obj):
+    """like record() but keeps earlier REC entries (marker indices stay valid for texts written before)"""
+    start = len(REC)
+    out = io.StringIO()
+    obj.serialize(out)
+    text = out.getvalue()
+    return [REC[i] for i in range(start, len(REC))], text
+
+
+def stream_of_text(text):
+    """the parameter stream denoted by a marker text, or None if anything but blanks lies between markers"""
+    gaps = _MARK.split(text)[0::2]
+    if not gaps_blank(gaps):
+        return None
+    return [REC[int(x)] for x in _MARK.findall(text)]
+
+
 def params(stream):
     """iterator of parameter objects over recorded component tuples"""
     return iter([StubParam(c) for c in stream])
